@@ -385,7 +385,7 @@ def zoo_histories(ctx, rnd, n):
                 ctx.violation(f"parse({name}) on shared instances after {len(hist)} calls differs from fresh instances",
                               {"model": name, "xml": a[1][:1200], "shared": repr(pa)[:800], "fresh": repr(pb)[:800],
                                "finding_tags": f3_selector(shared_ctx, pctx)})
-        if name not in ("Wild", "Mixed", "Order"):
+        if name not in ("Wild", "Mixed", "Order", "SameName"):     # (SameName: one JSON key for three members)
             ja = _try(lambda: sj.render(obj))
             jb = _try(lambda: JsonSerializer(context=XmlContext()).render(obj))
             if ja != jb:
